@@ -13,6 +13,8 @@ def ints(rng, n=24):
 def fbits(x):
     return struct.unpack("<Q", struct.pack("<d", x))[0]
 
+NANS = [0x7ff8000000000000, 0xfff8000000000000, 0x7ff0000000000001, 0x7ff8000000000001, 0xffffffffffffffff]
+
 def floats(rng, n=24):
     base = [0.0, -0.0, 5e-324, -5e-324, 2.2250738585072014e-308, -2.2250738585072014e-308, 1.0, -1.0, 1.0000000000000002,
             1.7976931348623157e308, -1.7976931348623157e308, float("inf"), float("-inf"), 0.1, -0.1, 3.5, 1e100, -1e100]
@@ -144,7 +146,7 @@ def hash_exec(rng):
     groups = []
     kinds_of = {}
     nocopy = set()
-    for kind, vals in (("I", ints(rng, 8)), ("F", floats(rng, 8)), ("S", strings(rng, 8)), ("Y", TYPES[:6]), ("X", blobs(rng, 6)),
+    for kind, vals in (("I", ints(rng, 8)), ("F", floats(rng, 8) + NANS), ("S", strings(rng, 8)), ("Y", TYPES[:6]), ("X", blobs(rng, 6)),
                        ("X", blobs(rng, 6, 12)), ("X", blobs(rng, 6, 5)), ("X", sblobs(rng, 8))):
         d, toks = define(kind, vals, t); L += d; t += len(toks)
         for tk in toks:
